@@ -164,8 +164,16 @@ Definition model_dispatch (op : string) (args : list sexp) : option sexp :=
       match dec_tree t, dec_Z c, dec_Z d with Some t, Some c, Some d => Some (enc_out_trees (td_chunk t c d)) | _, _, _ => None end
   | "td-gather", [t; d; i] =>
       match dec_tree t, dec_Z d, dec_zs i with Some t, Some d, Some i => Some (enc_out_tree (gather_at t d i)) | _, _, _ => None end
+  | "td-masked-select", [t; m; c] =>
+      match dec_tree t, dec_zs m, dec_Z c with Some t, Some m, Some c => Some (enc_out_tree (td_masked_select t m c)) | _, _, _ => None end
   | "td-stack", [l; d; SA "none"] =>
       match dec_list dec_tree l, dec_Z d with Some l, Some d => Some (enc_out_tree (td_stack l d)) | _, _ => None end
+  | "td-stack", [l; d; SL [SA "some"; o]] =>
+      match dec_list dec_tree l, dec_Z d, dec_tree o with
+      | Some l, Some d, Some o => Some (enc_out_tree (td_stack_out l d o)) | _, _, _ => None end
+  | "td-cat", [l; d; SL [SA "some"; o]] =>
+      match dec_list dec_tree l, dec_Z d, dec_tree o with
+      | Some l, Some d, Some o => Some (enc_out_tree (td_cat_out l d o)) | _, _, _ => None end
   | "td-cat", [l; d; SA "none"] =>
       match dec_list dec_tree l, dec_Z d with Some l, Some d => Some (enc_out_tree (td_cat l d)) | _, _ => None end
   | _, _ => None
